@@ -41,9 +41,19 @@
 //!   and address the same slot (every write route through one, every read/stamp/check through every other); keys of
 //!   different key types or values never alias (eight never-written keys are probed at every step, and the map must
 //!   hold nothing but the model's entries).
-//! * Three searches are run, with different operation alphabets ("families"): `objkeys` (all of O), `main` (K1, K2, K3 maps; typed state on
+//! * `MapOp::Seq(a, b)` performs TWO operations on one writer (all 36 ordered pairs of insert 0/1, entry-remove,
+//!   `entry().or_insert` 0/1, `entry().and_modify`), with a `MapWriter::get` in between, through every write route;
+//!   the oracle is the sequential `HashMap` model (results of both operations, the value in between, the value read back
+//!   afterwards through every read route, the three stamp routes). Family `writer_pairs`.
+//! * Family `alternation` alternates between two state types on ONE resource type (RA: Shared/Other; K1: its map
+//!   displaced by a foreign state type through `get_or_set_default(_mut)` and then read again). Its alphabet is small
+//!   and explored without state merging to depth 4 (quick) / 5 (thorough): anything a displaced state leaves behind is
+//!   hidden state, and the documented semantics is that a `get_or_set_default` of another type resets the slot to that
+//!   type's default.
+//! * Five searches are run, with different operation alphabets ("families"): `writer_pairs`, `alternation` (above),
+//!   `objkeys` (all of O), `main` (K1, K2, K3 maps; typed state on
 //!   RA, RB, K1) and `twins` (the full map + typed-state alphabet on T1 and T2, with one key of K1 and `Shared` on RA as
-//!   bystanders). The explored space is the sum, not the product, of the three: interference between resource types is
+//!   bystanders). The explored space is the sum, not the product, of the five: interference between resource types is
 //!   pairwise and every pair of kinds occurs within one family. Every step of each observes all eight resource types.
 //! * The dependency store of pie is hidden state that the model state does not contain (which `KeyTask`s exist). To
 //!   cover it, besides the BFS to a fixed point over model states, ALL operation paths up to a small depth are executed
@@ -162,7 +172,46 @@ impl Slot {
 pub struct Model { pub slots: [Slot; N_RES] }
 
 #[derive(Clone, Copy, PartialEq, Eq, Hash, PartialOrd, Ord, Debug)]
-pub enum MapOp { Insert(u8), Remove, OrInsert(u8) }
+pub enum MapOp {
+  Insert(u8),
+  Remove,
+  OrInsert(u8),
+  /// Two operations on ONE writer (resp. one `&mut HashMap` for the global-map route), with a `get` in between.
+  Seq(SOp, SOp),
+}
+
+/// One operation on a writer, as part of a `MapOp::Seq`.
+#[derive(Clone, Copy, PartialEq, Eq, Hash, PartialOrd, Ord, Debug)]
+pub enum SOp {
+  /// `insert(v)`
+  Ins(u8),
+  /// `entry()` -> `Occupied.remove()`
+  Rem,
+  /// `entry().or_insert(v)`
+  OrIns(u8),
+  /// `entry().and_modify(|x| flip x)`
+  Modify,
+}
+
+pub const ALL_SOPS: [SOp; 6] = [SOp::Ins(0), SOp::Ins(1), SOp::Rem, SOp::OrIns(0), SOp::OrIns(1), SOp::Modify];
+
+impl SOp {
+  fn text(self) -> String {
+    match self { SOp::Ins(v) => format!("i{}", v), SOp::Rem => "r".into(), SOp::OrIns(v) => format!("o{}", v), SOp::Modify => "m".into() }
+  }
+  fn parse(s: &str) -> Option<SOp> {
+    match s { "i0" => Some(SOp::Ins(0)), "i1" => Some(SOp::Ins(1)), "r" => Some(SOp::Rem), "o0" => Some(SOp::OrIns(0)), "o1" => Some(SOp::OrIns(1)), "m" => Some(SOp::Modify), _ => None }
+  }
+  /// Sequential `HashMap` semantics on one slot; returns the operation's result code.
+  fn apply_model(self, slot: &mut Option<u8>) -> i16 {
+    match self {
+      SOp::Ins(v) => { let prev = *slot; *slot = Some(v); opt_code(prev) }
+      SOp::Rem => { let prev = *slot; *slot = None; opt_code(prev) }
+      SOp::OrIns(v) => { let cur = slot.unwrap_or(v); *slot = Some(cur); cur as i16 }
+      SOp::Modify => { if let Some(v) = slot { *v = 1 - *v; } opt_code(*slot) }
+    }
+  }
+}
 
 /// How a `MapWriter` / map is obtained for a write.
 #[derive(Clone, Copy, PartialEq, Eq, Hash, PartialOrd, Ord, Debug)]
@@ -219,7 +268,8 @@ impl Op {
     match *self {
       Op::Map { kt, key, route, bottom_up, op } => {
         let r = match route { WRoute::CtxWrite => "ctx_write", WRoute::CreateWriter => "create_writer", WRoute::GlobalMap => "global_map", WRoute::ResWrite => "res_write" };
-        let o = match op { MapOp::Insert(v) => format!("insert:{}", v), MapOp::Remove => "remove:-".to_string(), MapOp::OrInsert(v) => format!("or_insert:{}", v) };
+        let o = match op { MapOp::Insert(v) => format!("insert:{}", v), MapOp::Remove => "remove:-".to_string(), MapOp::OrInsert(v) => format!("or_insert:{}", v),
+          MapOp::Seq(a, b) => format!("seq:{}+{}", a.text(), b.text()) };
         format!("map:{}:{}:{}:{}:{}", kt.name(), key, r, mode(self.in_task(), bottom_up), o)
       }
       Op::Read { kt, key, route, bottom_up } => {
@@ -248,7 +298,9 @@ impl Op {
     match p.as_slice() {
       ["map", k, key, r, m, o, v] => {
         let route = match *r { "ctx_write" => WRoute::CtxWrite, "create_writer" => WRoute::CreateWriter, "global_map" => WRoute::GlobalMap, "res_write" => WRoute::ResWrite, _ => return None };
-        let op = match *o { "insert" => MapOp::Insert(bit(v)?), "remove" => MapOp::Remove, "or_insert" => MapOp::OrInsert(bit(v)?), _ => return None };
+        let op = match *o { "insert" => MapOp::Insert(bit(v)?), "remove" => MapOp::Remove, "or_insert" => MapOp::OrInsert(bit(v)?),
+          "seq" => { let (a, b) = v.split_once('+')?; MapOp::Seq(SOp::parse(a)?, SOp::parse(b)?) }
+          _ => return None };
         Some(Op::Map { kt: kt(k)?, key: key_of(kt(k)?, key)?, route, bottom_up: *m == "bu", op })
       }
       ["read", k, key, r, m] => {
@@ -301,13 +353,17 @@ impl Model {
       Op::Map { kt, key, route, op: mop, .. } => {
         let m = self.ensure_map(kt);
         let k = (key % 2) as usize; // logical key (for `O` the key index also carries the constructor)
-        let ret = match mop {
-          MapOp::Insert(v) => { let prev = m[k]; m[k] = Some(v); opt_code(prev) }
-          MapOp::Remove => { let prev = m[k]; m[k] = None; opt_code(prev) }
-          MapOp::OrInsert(v) => { let cur = m[k].unwrap_or(v); m[k] = Some(cur); cur as i16 }
-        };
+        match mop {
+          MapOp::Insert(v) => obs.push(("ret", SOp::Ins(v).apply_model(&mut m[k]))),
+          MapOp::Remove => obs.push(("ret", SOp::Rem.apply_model(&mut m[k]))),
+          MapOp::OrInsert(v) => obs.push(("ret", SOp::OrIns(v).apply_model(&mut m[k]))),
+          MapOp::Seq(a, b) => {
+            obs.push(("ret", a.apply_model(&mut m[k])));
+            obs.push(("mid_get", opt_code(m[k])));
+            obs.push(("ret2", b.apply_model(&mut m[k])));
+          }
+        }
         let after = opt_code(m[k]);
-        obs.push(("ret", ret));
         obs.push(("after_get", after));
         match route {
           WRoute::CtxWrite => obs.push(("tracker_write_stamp", after)),
@@ -397,6 +453,46 @@ pub fn alphabet(tier: Tier) -> Vec<Op> {
       for op in typed { ops.push(Op::Typed { res, st: ST::M1, op }); }
     }
   }
+  ops
+}
+
+/// Operation alphabet of the family "writer_pairs": every ordered PAIR of writer operations (insert 0/1, remove through
+/// `entry()`, `entry().or_insert` 0/1, `entry().and_modify`) performed on ONE writer, with a `get` in between, through
+/// every write route (in-task routes in both session modes), on key 0 of K1; single operations and reads reach every
+/// prior state of the key. Judged by the sequential `HashMap` model.
+pub fn alphabet_writer_pairs(_tier: Tier) -> Vec<Op> {
+  let mut ops = Vec::new();
+  let (kt, key) = (KT::K1, 0u8);
+  for route in [WRoute::CtxWrite, WRoute::CreateWriter, WRoute::GlobalMap, WRoute::ResWrite] {
+    let in_task = matches!(route, WRoute::CtxWrite | WRoute::CreateWriter);
+    for &bottom_up in if in_task { &[false, true][..] } else { &[false][..] } {
+      for a in ALL_SOPS {
+        for b in ALL_SOPS { ops.push(Op::Map { kt, key, route, bottom_up, op: MapOp::Seq(a, b) }); }
+      }
+    }
+  }
+  for op in [MapOp::Insert(0), MapOp::Insert(1), MapOp::Remove] { ops.push(Op::Map { kt, key, route: WRoute::GlobalMap, bottom_up: false, op }); }
+  for route in [RRoute::CtxRead, RRoute::GlobalMap, RRoute::ResRead, RRoute::Stamp] { ops.push(Op::Read { kt, key, route, bottom_up: false }); }
+  // the other key of the same type and a key of another type: must stay untouched (observed every step)
+  ops.push(Op::Map { kt, key: 1, route: WRoute::ResWrite, bottom_up: false, op: MapOp::Seq(SOp::Ins(1), SOp::OrIns(0)) });
+  ops.push(Op::Map { kt: KT::K2, key: 0, route: WRoute::ResWrite, bottom_up: false, op: MapOp::Seq(SOp::Ins(0), SOp::Modify) });
+  ops
+}
+
+/// Operation alphabet of the family "alternation": typed state accesses that alternate between two state types on ONE
+/// resource type (plain resource RA: Shared/Other; key type K1: its map displaced by a foreign state type and then
+/// read again). Small alphabet, explored WITHOUT state merging to a larger depth, because what a displaced state
+/// leaves behind is not part of the model state. Model: a `get_or_set_default(_mut)` of another type resets the slot to
+/// that type's default; nothing of the old content may ever come back.
+pub fn alphabet_alternation(_tier: Tier) -> Vec<Op> {
+  let mut ops = Vec::new();
+  for st in [ST::Shared, ST::Other] {
+    for op in [TypedOp::Set(1), TypedOp::Gosd, TypedOp::GosdMut, TypedOp::Get] { ops.push(Op::Typed { res: Res::RA, st, op }); }
+  }
+  for route in [WRoute::GlobalMap, WRoute::ResWrite] { ops.push(Op::Map { kt: KT::K1, key: 0, route, bottom_up: false, op: MapOp::Insert(1) }); }
+  for route in [RRoute::GlobalMap, RRoute::Stamp, RRoute::Check, RRoute::CtxRead] { ops.push(Op::Read { kt: KT::K1, key: 0, route, bottom_up: false }); }
+  for op in [TypedOp::Gosd, TypedOp::GosdMut, TypedOp::Set(1)] { ops.push(Op::Typed { res: Res::K1, st: ST::Other, op }); }
+  ops.push(Op::Typed { res: Res::K1, st: ST::Shared, op: TypedOp::Gosd });
   ops
 }
 
@@ -833,25 +929,64 @@ thread_local! {
   static EXECS: Cell<i16> = const { Cell::new(0) };
 }
 
-fn writer_apply<K: KeyT>(w: &mut MapWriter<'_, K>, op: MapOp) -> i16 {
+fn flipped<K: KeyT>(v: &K::Value) -> K::Value { match K::unval(v) { 0 => K::val(1), 1 => K::val(0), _ => v.clone() } }
+
+fn writer_single<K: KeyT>(w: &mut MapWriter<'_, K>, op: SOp) -> i16 {
   match op {
-    MapOp::Insert(v) => code::<K>(w.insert(K::val(v)).as_ref()),
-    MapOp::Remove => match w.entry() {
+    SOp::Ins(v) => code::<K>(w.insert(K::val(v)).as_ref()),
+    SOp::Rem => match w.entry() {
       Entry::Occupied(e) => code::<K>(Some(&e.remove())),
       Entry::Vacant(_) => -1,
     },
-    MapOp::OrInsert(v) => { let x = w.entry().or_insert(K::val(v)).clone(); code::<K>(Some(&x)) }
+    SOp::OrIns(v) => { let x = w.entry().or_insert(K::val(v)).clone(); code::<K>(Some(&x)) }
+    SOp::Modify => match w.entry().and_modify(|x| *x = flipped::<K>(x)) {
+      Entry::Occupied(e) => code::<K>(Some(e.get())),
+      Entry::Vacant(_) => -1,
+    },
   }
 }
 
-fn hashmap_apply<K: KeyT>(m: &mut HashMap<K, K::Value>, key: K, op: MapOp) -> i16 {
+/// Applies `op` through one writer; yields the result observations ("ret", and for a sequence "mid_get", "ret2").
+fn writer_apply<K: KeyT>(w: &mut MapWriter<'_, K>, op: MapOp) -> Obs {
   match op {
-    MapOp::Insert(v) => code::<K>(m.insert(key, K::val(v)).as_ref()),
-    MapOp::Remove => match m.entry(key) {
+    MapOp::Insert(v) => vec![("ret", writer_single::<K>(w, SOp::Ins(v)))],
+    MapOp::Remove => vec![("ret", writer_single::<K>(w, SOp::Rem))],
+    MapOp::OrInsert(v) => vec![("ret", writer_single::<K>(w, SOp::OrIns(v)))],
+    MapOp::Seq(a, b) => {
+      let r1 = writer_single::<K>(w, a);
+      let mid = code::<K>(w.get());
+      let r2 = writer_single::<K>(w, b);
+      vec![("ret", r1), ("mid_get", mid), ("ret2", r2)]
+    }
+  }
+}
+
+fn hashmap_single<K: KeyT>(m: &mut HashMap<K, K::Value>, key: K, op: SOp) -> i16 {
+  match op {
+    SOp::Ins(v) => code::<K>(m.insert(key, K::val(v)).as_ref()),
+    SOp::Rem => match m.entry(key) {
       Entry::Occupied(e) => code::<K>(Some(&e.remove())),
       Entry::Vacant(_) => -1,
     },
-    MapOp::OrInsert(v) => { let x = m.entry(key).or_insert(K::val(v)).clone(); code::<K>(Some(&x)) }
+    SOp::OrIns(v) => { let x = m.entry(key).or_insert(K::val(v)).clone(); code::<K>(Some(&x)) }
+    SOp::Modify => match m.entry(key).and_modify(|x| *x = flipped::<K>(x)) {
+      Entry::Occupied(e) => code::<K>(Some(e.get())),
+      Entry::Vacant(_) => -1,
+    },
+  }
+}
+
+fn hashmap_apply<K: KeyT>(m: &mut HashMap<K, K::Value>, key: K, op: MapOp) -> Obs {
+  match op {
+    MapOp::Insert(v) => vec![("ret", hashmap_single::<K>(m, key, SOp::Ins(v)))],
+    MapOp::Remove => vec![("ret", hashmap_single::<K>(m, key, SOp::Rem))],
+    MapOp::OrInsert(v) => vec![("ret", hashmap_single::<K>(m, key, SOp::OrIns(v)))],
+    MapOp::Seq(a, b) => {
+      let r1 = hashmap_single::<K>(m, key.clone(), a);
+      let mid = code::<K>(m.get(&key));
+      let r2 = hashmap_single::<K>(m, key, b);
+      vec![("ret", r1), ("mid_get", mid), ("ret2", r2)]
+    }
   }
 }
 
@@ -874,18 +1009,18 @@ impl<K: KeyT> Task for KeyTask<K> {
     let Some(cmd) = cmd else { return obs; };
     match cmd.what {
       What::Write { create_writer: false, op } => {
-        let (mut ret, mut after) = (998, 998);
+        let (mut rets, mut after) = (vec![("ret", 998)], 998);
         context.write(&self.0, MapEqualsChecker, |w| {
-          ret = writer_apply::<K>(w, op);
+          rets = writer_apply::<K>(w, op);
           after = code::<K>(w.get());
           Ok(())
         }).unwrap();
-        obs.push(("ret", ret));
+        obs.extend(rets);
         obs.push(("after_get", after));
       }
       What::Write { create_writer: true, op } => {
         let mut w = context.create_writer(&self.0).unwrap();
-        obs.push(("ret", writer_apply::<K>(&mut w, op)));
+        obs.extend(writer_apply::<K>(&mut w, op));
         obs.push(("after_get", code::<K>(w.get())));
         let stamp = ResourceChecker::<K>::stamp_writer(&MapEqualsChecker, &self.0, w).unwrap();
         obs.push(("stamp_writer", code::<K>(stamp.as_ref())));
@@ -959,15 +1094,17 @@ fn exec_map<K: KeyT>(pie: &mut Pie<Rec>, key: u8, route: WRoute, bottom_up: bool
     WRoute::CreateWriter => run_task::<K>(pie, key, What::Write { create_writer: true, op }, bottom_up),
     WRoute::GlobalMap => {
       let m = GetGlobalMap::<K>::get_global_map_mut(pie.resource_state_mut::<K>());
-      let ret = hashmap_apply::<K>(m, k.clone(), op);
-      vec![("ret", ret), ("after_get", code::<K>(m.get(&k)))]
+      let mut obs = hashmap_apply::<K>(m, k.clone(), op);
+      obs.push(("after_get", code::<K>(m.get(&k))));
+      obs
     }
     WRoute::ResWrite => {
       let mut w = Resource::write(&k, pie.resource_state_mut::<K>()).unwrap();
-      let ret = writer_apply::<K>(&mut w, op);
-      let after = code::<K>(w.get());
+      let mut obs = writer_apply::<K>(&mut w, op);
+      obs.push(("after_get", code::<K>(w.get())));
       let stamp = ResourceChecker::<K>::stamp_writer(&MapEqualsChecker, &k, w).unwrap();
-      vec![("ret", ret), ("after_get", after), ("stamp_writer", code::<K>(stamp.as_ref()))]
+      obs.push(("stamp_writer", code::<K>(stamp.as_ref())));
+      obs
     }
   }
 }
@@ -1486,6 +1623,7 @@ fn sample_scripts() -> Vec<Vec<&'static str>> {
     vec!["typed:RA:Shared:set:1", "typed:RB:Shared:get:-", "typed:RB:Other:get_or_set_default_mut:-", "typed:RA:Other:get:-", "typed:RA:Shared:get_mut:-", "typed:RB:Shared:get_or_set_default:-"],
     vec!["map:T1:0:ctx_write:td:insert:1", "read:T2:0:ctx_read:td", "map:T2:0:global_map:-:insert:0", "read:T1:0:res_read:-", "typed:T1:Shared:set:1", "typed:T2:Shared:get:-", "typed:T2:Shared:get_or_set_default:-", "read:T1:0:global_map:-"],
     vec!["map:O:4:ctx_write:td:insert:1", "read:O:0:ctx_read:td", "read:O:1:global_map:-", "map:O:3:global_map:-:insert:0", "read:O:5:res_read:-", "map:O:6:create_writer:bu:remove:-", "read:O:10:stamp:-", "read:O:2:check:-"],
+    vec!["map:K1:0:ctx_write:td:seq:i1+o0", "map:K1:0:res_write:-:seq:i0+r", "map:K1:0:create_writer:td:seq:o1+m", "read:K1:0:ctx_read:td", "typed:K1:Other:get_or_set_default_mut:-", "read:K1:0:stamp:-"],
     vec!["map:K2:1:res_write:-:insert:1", "map:K1:1:create_writer:td:or_insert:0", "read:K2:1:task_writer_get:td", "map:K2:1:ctx_write:td:remove:-", "read:K2:1:check:-"],
   ]
 }
@@ -1551,18 +1689,21 @@ pub fn run(args: &Args) -> i32 {
       replay: json!({"key_identity_check": true, "failure": f}),
     });
   }
-  let families: Vec<(&'static str, &'static str, Vec<Op>, usize)> = vec![
-    ("objkeys", "O = MapKeyObjToObj (trait-object keys): two logical keys of different key types (7u8 and the genuinely boxed Box::new(7u8)), each addressed through 6 public constructors (inherent from, new, From<Box<K>>, From<Box<dyn KeyObj>>, tuple field, clone), all write/read routes; 8 never-written keys of other types/values probed every step; plus one key of K1", alphabet_objkeys(args.tier), 2),
-    ("twins", "T1, T2 = two distinct key types with identical std::any::type_name (full map and typed-state alphabet), plus one key of K1 and Shared on RA", alphabet_twins(args.tier), usize::MAX),
-    ("main", "K1, K2 (+K3 thorough) maps; typed state on RA, RB, K1", alphabet(args.tier), usize::MAX),
+  let alternation_depth = if args.tier == Tier::Thorough { 5 } else { 4 };
+  let families: Vec<(&'static str, &'static str, Vec<Op>, Option<usize>)> = vec![
+    ("writer_pairs", "every ordered pair of writer operations {insert 0/1, entry-remove, entry().or_insert 0/1, entry().and_modify} on ONE writer with a get in between, through all 4 write routes (in-task: both session modes), K1 key 0; plus single ops/reads to reach every prior state, and one pair each on K1 key 1 and K2 key 0", alphabet_writer_pairs(args.tier), Some(2)),
+    ("alternation", "typed state alternating between two state types on one resource type: RA Shared/Other {set, get_or_set_default, get_or_set_default_mut, get}; K1's map displaced by Other/Shared via get_or_set_default(_mut)/set and read again (get_global_map, stamp, check, Context::read); unmerged paths to a larger depth", alphabet_alternation(args.tier), Some(alternation_depth)),
+    ("objkeys", "O = MapKeyObjToObj (trait-object keys): two logical keys of different key types (7u8 and the genuinely boxed Box::new(7u8)), each addressed through 6 public constructors (inherent from, new, From<Box<K>>, From<Box<dyn KeyObj>>, tuple field, clone), all write/read routes; 8 never-written keys of other types/values probed every step; plus one key of K1", alphabet_objkeys(args.tier), Some(2)),
+    ("twins", "T1, T2 = two distinct key types with identical std::any::type_name (full map and typed-state alphabet), plus one key of K1 and Shared on RA", alphabet_twins(args.tier), None),
+    ("main", "K1, K2 (+K3 thorough) maps; typed state on RA, RB, K1", alphabet(args.tier), None),
   ];
   let mut outs: Vec<SearchOut> = Vec::new();
-  for (name, _, ops, max_enum_depth) in &families {
+  for (name, _, ops, fixed_enum_depth) in &families {
     for (i, op) in ops.iter().enumerate() {
       if Op::parse(&op.text()) != Some(*op) { engine_error(&format!("C14: operation {} ({}) of family {} does not round-trip through its text form", i, op.text(), name)); }
     }
     let remaining = (budget_s - start.elapsed().as_secs_f64()).max(0.5);
-    outs.push(with_quiet_panics(|| search(args.tier, ops, remaining, enum_depth.min(*max_enum_depth))));
+    outs.push(with_quiet_panics(|| search(args.tier, ops, remaining, fixed_enum_depth.unwrap_or(enum_depth))));
   }
 
   // Samples: scripted paths plus the representative path of the last state discovered in each family.
@@ -1598,7 +1739,7 @@ pub fn run(args: &Args) -> i32 {
   rep.set("samples", Value::Array(samples));
   rep.set("exhaustive", json!(fixed_point && enum_complete));
   rep.set("rule", json!(format!(
-    "identity check of MapKeyObjToObj keys (all pairs of (logical key, public constructor): equal and hash-equal iff same (key type, value); unequal to 8 keys of other types/values) + three searches (families 'objkeys', 'twins' and 'main', see bounds), each: BFS over model states (what pie's typed state holds for each of the resource types K1,K2,K3,RA,RB,T1,T2,O, global maps included) {}; every (state, op) executed on a fresh Pie by replaying the state's representative path; after the last op every key index (for O: every constructor of every logical key) is read, stamped through three routes and checked against all stamps; plus all op paths of length <= {} (objkeys: <= 2) without state merging ({})",
+    "identity check of MapKeyObjToObj keys (all pairs of (logical key, public constructor): equal and hash-equal iff same (key type, value); unequal to 8 keys of other types/values) + five searches (families 'writer_pairs', 'alternation', 'objkeys', 'twins' and 'main', see bounds), each: BFS over model states (what pie's typed state holds for each of the resource types K1,K2,K3,RA,RB,T1,T2,O, global maps included) {}; every (state, op) executed on a fresh Pie by replaying the state's representative path; after the last op every key index (for O: every constructor of every logical key) is read, stamped through three routes and checked against all stamps; plus all op paths of length <= {} (writer_pairs, objkeys: <= 2; alternation: <= 4 quick / 5 thorough) without state merging ({}); map operations include every ordered pair of writer operations on one writer, judged by the sequential HashMap model; typed-state model: a get_or_set_default(_mut) of another type resets the slot to that type's default",
     if fixed_point { "to a fixed point" } else { "stopped by the wall-time budget before the fixed point" }, enum_depth,
     if enum_complete { "complete" } else { "stopped by the wall-time budget" })));
   rep.set("twin_key_types", json!({
@@ -1619,7 +1760,7 @@ pub fn run(args: &Args) -> i32 {
     "MapKeyObjToObj_never_written_keys": MapKeyObjToObj::foreign_keys().iter().map(|(w, _)| *w).collect::<Vec<_>>(),
     "keys_per_type": 2, "values_per_type": 2,
     "write_routes": ["Context::write", "Context::create_writer+written_to", "resource_state_mut().get_global_map_mut()", "Resource::write(state) MapWriter outside a task"],
-    "map_ops": ["insert", "remove via entry()", "entry().or_insert"],
+    "map_ops": ["insert", "remove via entry()", "entry().or_insert", "seq(a,b): two of {insert 0/1, entry-remove, entry().or_insert 0/1, entry().and_modify(flip)} on ONE writer with MapWriter::get in between (all 36 ordered pairs)"],
     "read_routes": ["Context::read", "MapWriter::get/get_mut in task", "get_global_map", "get_global_map_mut", "Resource::read", "Resource::write+get", "MapEqualsChecker::stamp", "MapEqualsChecker::check"],
     "session_modes_for_in_task_routes": ["top-down", "bottom-up"],
     "typed_state": {"resource_types": ["RA", "RB", "K1", "T1", "T2"], "state_types": if args.tier == Tier::Thorough { json!(["Shared(u8)", "Other(bool)", "HashMap<K1,u8> (on RA and K1)"]) } else { json!(["Shared(u8)", "Other(bool)"]) },
@@ -1724,7 +1865,7 @@ mod tests {
       for op in ops { assert_eq!(Op::parse(&op.text()), Some(op)); }
     }
     assert!(alphabet(Tier::Quick).len() < alphabet(Tier::Thorough).len());
-    for ops in [alphabet_twins(Tier::Quick), alphabet_objkeys(Tier::Quick)] {
+    for ops in [alphabet_twins(Tier::Quick), alphabet_objkeys(Tier::Quick), alphabet_writer_pairs(Tier::Quick), alphabet_alternation(Tier::Quick)] {
       let set: BTreeSet<Op> = ops.iter().copied().collect();
       assert_eq!(set.len(), ops.len());
       for op in ops { assert_eq!(Op::parse(&op.text()), Some(op)); }
@@ -1765,6 +1906,32 @@ mod tests {
     assert_eq!(m.apply(read(KT::O, 1), 4), vec![("read", -1)]);
     assert_eq!(m.apply(read(KT::O, 5), 5), vec![("read", -1)]);
     assert_eq!(m.map_of(KT::O), Some([Some(1), None]));
+  }
+
+  #[test]
+  fn model_writer_pairs_follow_sequential_hashmap() {
+    let seq = |a, b| Op::Map { kt: KT::K1, key: 0, route: WRoute::ResWrite, bottom_up: false, op: MapOp::Seq(a, b) };
+    let mut m = Model::initial();
+    // insert then or_insert on the same writer: or_insert sees the inserted value
+    assert_eq!(m.apply(seq(SOp::Ins(1), SOp::OrIns(0)), 1), vec![("ret", -1), ("mid_get", 1), ("ret2", 1), ("after_get", 1), ("stamp_writer", 1)]);
+    // insert then remove: remove returns the inserted value, key absent afterwards
+    assert_eq!(m.apply(seq(SOp::Ins(0), SOp::Rem), 2), vec![("ret", 1), ("mid_get", 0), ("ret2", 0), ("after_get", -1), ("stamp_writer", -1)]);
+    // modify on a vacant key does nothing; then insert
+    assert_eq!(m.apply(seq(SOp::Modify, SOp::Ins(1)), 3), vec![("ret", -1), ("mid_get", -1), ("ret2", -1), ("after_get", 1), ("stamp_writer", 1)]);
+    assert_eq!(m.apply(seq(SOp::Ins(0), SOp::Modify), 4), vec![("ret", 1), ("mid_get", 0), ("ret2", 1), ("after_get", 1), ("stamp_writer", 1)]);
+    assert_eq!(m.map_of(KT::K1), Some([Some(1), None]));
+  }
+
+  #[test]
+  fn model_alternating_state_types_reset_to_default() {
+    let t = |res, st, op| Op::Typed { res, st, op };
+    let mut m = Model::initial();
+    m.apply(t(Res::RA, ST::Shared, TypedOp::Set(1)), 1);
+    assert_eq!(m.apply(t(Res::RA, ST::Other, TypedOp::Gosd), 2), vec![("get_or_set_default", 0)]);
+    assert_eq!(m.apply(t(Res::RA, ST::Shared, TypedOp::Gosd), 3), vec![("get_or_set_default", 0)]); // NOT the old 1
+    m.apply(ins(KT::K1, 0, 1), 4);
+    m.apply(t(Res::K1, ST::Other, TypedOp::GosdMut), 5);
+    assert_eq!(m.apply(read(KT::K1, 0), 6), vec![("read", -1)]); // the displaced map does not come back
   }
 
   #[test]
